@@ -28,7 +28,7 @@ ASSUMPTIONS = [
 ]
 RULE = ("registries of 0..200 scripted shells (normal and ignored) with group/name strings over a three-letter alphabet "
         "(substrings, equal names, empty strings and split groups frequent; in 30% of the cases self-overlapping filter texts with "
-        "names in which the match starts inside a failed partial match), 0..4 filters of each of the 8 kinds, a third of the cases "
+        "names in which the match starts inside a failed partial match), 0..4 filters of each of the 8 single kinds plus -t/-st/-xt/-xst group.name and TEST(g, n)/IGNORE_TEST(g, n), every filter built either by the real CommandLineArguments parser (value attached to the option, or in the next argument) or directly as TestFilter objects, mixed within a case; a third of the cases "
         "building the filters through the real CommandLineArguments parser, run-ignored on the registry and on single shells, reverse, "
         "shuffle with real rand() and with scripted streams (incl. negative values), repeated runs, the real CommandLineTestRunner "
         "with -rN / -sSEED / -b / -lg / -ln / -ll, unDoLastAddTest, findTestWithName/Group, countTests, getTestWithNext, willRun; "
@@ -104,31 +104,50 @@ def gen_tests(rng, n, alpha=ALPHA, maxlen=3, hays=()):
 
 
 def gen_filters(rng, alpha=ALPHA, maxlen=3, pool=(), needles=()):
-    """0-4 filters of each of the 8 kinds; texts are random strings, strings the tests use, or
-    self-overlapping needles"""
-    def text():
-        if needles and rng.random() < 0.6:
-            return rng.choice(needles)
-        if pool and rng.random() < 0.4:
-            return rng.choice(pool)
-        return rstr(rng, maxlen, alpha)
+    """0-4 filters of each of the 8 single kinds plus -t/-st/-xt/-xst group.name and TEST(g, n) /
+    IGNORE_TEST(g, n); texts are random strings, strings the tests use, or self-overlapping needles.
+    Every filter says how it is built: j = real parser, value attached to the option; s = real
+    parser, value in the next argument; d = TestFilter constructed directly; (none) = the case's default."""
+    def text(nonempty=False):
+        for _ in range(20):
+            if needles and rng.random() < 0.6:
+                t = rng.choice(needles)
+            elif pool and rng.random() < 0.4:
+                t = rng.choice(pool)
+            else:
+                t = rstr(rng, maxlen, alpha)
+            if t or not nonempty:
+                return t
+        return alpha[0]
+
+    def mode():
+        return rng.choice(["", " j", " j", " s", " s", " d"])
 
     def one(kind, flags):
-        return "%s %d %s%s" % (kind, flags, hx(text()), " j" if rng.random() < 0.3 else "")
+        if kind == "tfilter":
+            return "tfilter %d %s %s%s" % (flags, hx(text()), hx(text(True)), mode())
+        if kind == "vfilter":
+            return "vfilter %s %s %s%s" % (rng.choice("TI"), hx(text(True)), hx(text()), mode())
+        return "%s %d %s%s" % (kind, flags, hx(text()), mode())
+
+    def kind():
+        return rng.choice(["gfilter"] * 4 + ["nfilter"] * 4 + ["tfilter"] * 3 + ["vfilter"])
 
     ops = []
-    mode = rng.random()
-    if mode < 0.12 and not needles:
+    m = rng.random()
+    if m < 0.12 and not needles:
         return ops
-    if mode < 0.62 or needles:
+    if m < 0.62 or needles:
         for _ in range(rng.choice([1, 1, 2, 2, 3])):
             flags = rng.choice([0, 0, 2]) if needles and rng.random() < 0.7 else rng.randrange(4)
-            ops.append(one(rng.choice(["gfilter", "nfilter"]), flags))
+            ops.append(one(kind() if not needles else rng.choice(["gfilter", "nfilter", "tfilter"]), flags))
         return ops
-    for kind in ("gfilter", "nfilter"):
+    for k in ("gfilter", "nfilter", "tfilter"):
         for flags in range(4):
-            for _ in range(rng.choice([0, 0, 1, 1, 2, 3, 4])):
-                ops.append(one(kind, flags))
+            for _ in range(rng.choice([0, 0, 1, 1, 2, 3, 4] if k != "tfilter" else [0, 0, 0, 1, 1, 2])):
+                ops.append(one(k, flags))
+    for _ in range(rng.choice([0, 0, 1, 2])):
+        ops.append(one("vfilter", 1))
     rng.shuffle(ops)
     return ops
 
@@ -249,7 +268,7 @@ def gen_case(rng, tier, malformed=False):
             ops += more
             n += len(more)
             if rng.random() < 0.5:
-                ops.append("%s %d %s" % (rng.choice(["gfilter", "nfilter"]), rng.randrange(4), hx(rstr(rng, maxlen, alpha))))
+                ops += gen_filters(rng, alpha, maxlen, pool)[:2]
             if rng.random() < 0.3:
                 ops.append("runignored")
             ops.append("run" if rng.random() < 0.7 else gen_runner(rng, n))
@@ -349,7 +368,9 @@ def observe(r, rep):
     for l in r.ops:
         w = l.split()
         if w[0] in ("gfilter", "nfilter"):
-            rep.count("filter.%s.%s" % (w[0][0], ["substring", "strict", "inverted", "strict+inverted"][int(w[1]) & 3]))
+            md = w[3] if len(w) > 3 else "default"
+            opt = (["-g", "-sg", "-xg", "-xsg"] if w[0] == "gfilter" else ["-n", "-sn", "-xn", "-xsn"])[int(w[1]) & 3]
+            rep.count("filter.%s.%s" % (opt, {"j": "attached", "s": "separated", "d": "direct"}.get(md, "default")))
             if w[2] == "-":
                 rep.count("filter.empty_text")
             if (int(w[1]) & 1) == 0:
@@ -358,6 +379,12 @@ def observe(r, rep):
                     if nd in h and not single_pass_contains(h, nd):
                         rep.count("filter.match_needs_backing_up")
                         break
+        elif w[0] == "tfilter" and len(w) >= 4:
+            md = w[4] if len(w) > 4 else "default"
+            rep.count("filter.t.%s.%s" % (["-t", "-st", "-xt", "-xst"][int(w[1]) & 3], {"j": "attached", "s": "separated", "d": "direct"}.get(md, "default")))
+        elif w[0] == "vfilter" and len(w) >= 4:
+            md = w[4] if len(w) > 4 else "default"
+            rep.count("filter.%s.%s" % ("IGNORE_TEST()" if w[1] == "I" else "TEST()", {"j": "attached", "s": "separated", "d": "direct"}.get(md, "default")))
         elif w[0] == "shuffle" and len(w) > 2:
             rep.count("branch.shuffle_scripted_stream")
         elif w[0] == "runner":
